@@ -389,6 +389,8 @@ def name_variants(shape, pos):
     out = []
     if sib:
         out += [("case", sib.swapcase()), ("suffix", sib + "_")]
+        if len(sib) > 2 and sib[:-1] not in node:
+            out += [("truncated", sib[:-1])]  # a string prefix of a defined key is not a branch of it
     if not is_spec(node):
         out += [("class_path", "class_path"), ("init_args", "init_args")]
     out += [("dotted", FK + ".k")]
@@ -511,6 +513,8 @@ def work(job):
                         continue
                     if ch in ("envvars", "environ") and not env_applicable(shape, pos):
                         continue
+                    if nname == "truncated" and ch in ("argv", "envvars", "environ"):
+                        continue  # on argv an unambiguous prefix is argparse's abbreviation of the defined option
                     if ch == "argv" and pos[-1:] == ("init_args",) and nname in ("class_path", "init_args"):
                         # on argv `--m.init_args.K` is a spelling of `--m.K`, so these name the DEFINED keys m.class_path / m.init_args
                         continue
